@@ -824,6 +824,14 @@ func genInfos(run *vlib.Run, r *vlib.Rand, tier string) {
 	for k := 0; k < vlib.Count(tier, 250, 5000); k++ {
 		add(genInfo(r, tags, ""), "info:small")
 	}
+	// the moved lookup on the 16-bit boundary, with real subtables
+	for _, T := range []int{0xFFFE, 0x10000, 0x10002} {
+		for _, conv := range [][]mfsPattern{{mfsPatterns[0]}, {mfsPatterns[0], mfsPatterns[1]}} {
+			if d, ok := boundaryInfo(T, conv); ok {
+				add(d, "info:boundary-moved-lookup", fmt.Sprintf("info:boundary-T=%#x", T))
+			}
+		}
+	}
 	for k := 0; k < vlib.Count(tier, 8, 100); k++ {
 		for _, big := range []string{"feature", "features", "script", "lookups"} {
 			add(genInfo(r, tags, big), "info:big-"+big)
